@@ -145,6 +145,7 @@ struct RunState {
   bool has_violation = false;
   Violation violation;
   bool nontrivial = false;
+  bool os_timing = false;
   bool verbose = false;
   uint64_t sim_time_us = 0;
   uint64_t index = 0;
@@ -264,6 +265,10 @@ void fault(const char* kind) {
 }
 
 void probe(const char* name) { count(name, 1); }
+
+void mark_os_timing() {
+  if (g_run) g_run->os_timing = true;
+}
 
 void mark_nontrivial() {
   if (g_run) g_run->nontrivial = true;
@@ -449,6 +454,7 @@ struct Outcome {
   std::string cls, key, msg;
   uint64_t hash = 0;
   bool nontrivial = false;
+  bool os_timing = false; // part of the run was timed by the operating system (see vsim.hh mark_os_timing)
   uint64_t sim_time_us = 0;
   std::vector<uint32_t> tape; // consumed values
   std::vector<std::string> tape_annot; // site=value/n
@@ -484,6 +490,7 @@ static Outcome run_one(const TapeSpec& spec, bool verbose) {
   o.msg = r.violation.msg;
   o.hash = r.hash;
   o.nontrivial = r.nontrivial;
+  o.os_timing = r.os_timing;
   o.sim_time_us = r.sim_time_us;
   o.tape.reserve(r.tape.size());
   for (auto& t : r.tape) o.tape.push_back(t.v);
@@ -542,7 +549,7 @@ static std::string serialize(const Outcome& o) {
   put_str(s, o.key);
   put_str(s, o.msg);
   put_u64(s, o.hash);
-  put_u64(s, o.nontrivial);
+  put_u64(s, (o.nontrivial ? 1 : 0) | (o.os_timing ? 2 : 0));
   put_u64(s, o.sim_time_us);
   put_u64(s, o.tape.size());
   for (auto v : o.tape) put_u64(s, v);
@@ -562,7 +569,11 @@ static bool deserialize(const std::string& s, Outcome& o) {
   o.key = r.str();
   o.msg = r.str();
   o.hash = r.u64();
-  o.nontrivial = r.u64();
+  {
+    uint64_t fl = r.u64();
+    o.nontrivial = fl & 1;
+    o.os_timing = fl & 2;
+  }
   o.sim_time_us = r.u64();
   uint64_t n = r.u64();
   if (!r.ok || n > (1u << 26)) return false;
@@ -680,7 +691,9 @@ static void classify_death(int status, const std::string& err_text, std::string&
     size_t q = p + strlen("ERROR: ThreadSanitizer: ");
     size_t e = err_text.find_first_of(" \n", q);
     std::string k = err_text.substr(q, e == std::string::npos ? std::string::npos : e - q);
-    kind = (k == "SEGV" || k == "BUS" || k == "ILL") ? std::string("tsan:memory-error") : "tsan:" + k;
+    // (FPE too: what a freed block holds by then decides whether a wild access faults, divides by zero or is
+    // reported as use-after-free; the ASan+UBSan build of the same engine tells genuine arithmetic errors apart)
+    kind = (k == "SEGV" || k == "BUS" || k == "ILL" || k == "FPE" || k == "ABRT") ? std::string("tsan:memory-error") : "tsan:" + k;
   } else if ((p = err_text.find("terminate called")) != std::string::npos) {
     kind = "terminate";
   } else if (WIFSIGNALED(status)) {
@@ -1540,7 +1553,15 @@ int driver_main(int argc, char** argv, const Engine& e) {
       unreproduced.push_back(strprintf("run %llu: %s [%s] was reported inside a long-lived worker but does not reproduce reliably", (unsigned long long)g.idx, g.cls.c_str(), g.key.c_str()));
       continue;
     }
-    if (!(same_violation(o1, g.cls, g.key) && same_violation(o2, g.cls, g.key) && o1.hash == o2.hash && o1.tape == o2.tape)) {
+    bool gate_ok = same_violation(o1, g.cls, g.key) && same_violation(o2, g.cls, g.key) && o1.hash == o2.hash && o1.tape == o2.tape;
+    if (!gate_ok && (o1.os_timing || o2.os_timing)) {
+      // Part of this run (a second caller running a real, unsimulated call) was timed by the operating system.
+      // On the unchanged tree that part cannot influence the simulated one; in a changed tree it may, and then
+      // the verdict of this one run can differ between executions. Not a reproducible violation: a note.
+      unreproduced.push_back(strprintf("run %llu: %s [%s] involves an unsimulated second caller and does not reproduce identically (the change under test lets that caller's real timing leak into the simulated call)", (unsigned long long)g.idx, g.cls.c_str(), g.key.c_str()));
+      continue;
+    }
+    if (!gate_ok) {
       harness_fault = true;
       harness_fault_msg = strprintf("determinism gate failed for run %llu: worker said %s [%s]; re-evaluations gave kind=%d %s [%s] hash=%016llx and kind=%d %s [%s] hash=%016llx",
           (unsigned long long)g.idx, g.cls.c_str(), g.key.c_str(), (int)o1.kind, o1.cls.c_str(), o1.key.c_str(), (unsigned long long)o1.hash,
@@ -1577,6 +1598,11 @@ int driver_main(int argc, char** argv, const Engine& e) {
       rp.tape = o1.tape;
       fin = eval_forked(rp, true);
       if (!same_violation(fin, g.cls, g.key)) {
+        if (o1.os_timing) {
+          unreproduced.push_back(strprintf("run %llu: %s [%s] involves an unsimulated second caller and its recorded tape does not reproduce it", (unsigned long long)g.idx, g.cls.c_str(), g.key.c_str()));
+          unknown_violations--;
+          continue;
+        }
         harness_fault = true;
         harness_fault_msg = strprintf("replay of recorded tape for run %llu does not reproduce %s", (unsigned long long)g.idx, g.cls.c_str());
         continue;
@@ -1588,6 +1614,12 @@ int driver_main(int argc, char** argv, const Engine& e) {
     std::string line = fresh_process_replay(self, path, {});
     std::string want = strprintf("class=%s key=%s hash=%016llx", fin.cls.c_str(), fin.key.c_str(), (unsigned long long)fin.hash);
     if (line.find(want) == std::string::npos) {
+      if (o1.os_timing && !g.hist_count) {
+        unreproduced.push_back(strprintf("run %llu: %s [%s] involves an unsimulated second caller and does not reproduce in a freshly started process", (unsigned long long)g.idx, g.cls.c_str(), g.key.c_str()));
+        unlink(path.c_str());
+        unknown_violations--;
+        continue;
+      }
       if (g.hist_count) {
         // needed the worker's history and does not survive a change of process image: a note, not a verdict
         unreproduced.push_back(strprintf("run %llu: %s [%s] reproduced in forked evaluators after re-creating the worker's history but not in a freshly started process", (unsigned long long)g.idx, g.cls.c_str(), g.key.c_str()));
